@@ -7,12 +7,10 @@ the characters `% ; |` are written `%XX`.
 
 `fmt <calendar> <units…>`      → rewritten units | `ERR`        (primary model, with the code's check)
 `fmtpure <calendar> <units…>`  → same through `formatTimeUnits` (no check) — must agree with `fmt`
-`fmtcur <calendar> <units…>`   → what the unrepaired formatter returns | `ERR`   (quirk model)
 `instant <calendar> <units…>`  → `<seconds since 1970-01-01> <micro≠0>` | `ERR`   (`num2pydate(0, …)`)
 `parse <date…>`                → `y,mo,d,h,mi,s,<micro≠0>,<offset minutes>` | `ERR` (`_parse_date`)
 `poff <text…>`                 → offset minutes | `-`            (timezone grammar at the head of text)
 `foff <minutes>`               → `±HH:MM`
-`foffcur <minutes>`            → what the unrepaired code builds
 `split <units…>`               → `<period>|<remainder>` | `ERR`  (`_datesplit`)
 `unitok <period>`              → `1` | `0`
 `decode <calendar> <n> <units…>` → microseconds since 1970 of stored value n | `ERR`
@@ -20,11 +18,8 @@ the characters `% ; |` are written `%XX`.
 `autofill <kind>`              → `1` | `0`      (`np.issubdtype(dtype, np.floating)`)
 `fill <mem> <disk> <enc:absent|none|value> <attr:0|1>` → `<encoding slot after disable> <file has _FillValue>`
 `timecoord <generic|shoc_standard|shoc_simple> <dims,|-> name|units-or-!|dt;…` → name | `-`
-`timecoordcur …` same line → what the present SHOC overrides return (a bare dimension counts)
 `savetime …`     same line → variable whose units `to_netcdf` rewrites | `-` | `ERR` (save raises)
-`savetimecur …`  same line → the same with the present SHOC overrides
 `propcheck offset <m>`         → `1` iff parseOffset (formatOffset m) = some m
-`propcheck offsetcur <m>`      → same for the unrepaired formatter
 `propcheck fmt <calendar> <units…>` → `1` iff output (if any) has the EMS form and the same instant
 -/
 open Ems Ems.Proto Ems.TimeUnits
@@ -104,14 +99,13 @@ def emsForm (p : Str) (out : Str) : Bool :=
 def step (line : String) : String :=
   let (op, rest) := cut line.toList
   match String.ofList op with
-  | "fmt" | "fmtpure" | "fmtcur" | "instant" =>
+  | "fmt" | "fmtpure" | "instant" =>
     let (cal, u) := cut rest
     match unesc cal, unesc u with
     | some cal, some u =>
       match String.ofList op with
       | "fmt" => showOpt (formatTimeUnitsChecked gregorian cal u)
       | "fmtpure" => showOpt (formatTimeUnits gregorian cal u)
-      | "fmtcur" => showOpt (formatTimeUnitsCurrent gregorian cal u)
       | _ =>
         match refInstant gregorian cal u with
         | some (t, mic) => s!"{t} {bit mic}"
@@ -132,9 +126,6 @@ def step (line : String) : String :=
     | none => "BAD"
   | "foff" => match parseInt? (String.ofList rest) with
     | some m => esc (formatOffset m)
-    | none => "BAD"
-  | "foffcur" => match parseInt? (String.ofList rest) with
-    | some m => esc (formatOffsetCurrent m)
     | none => "BAD"
   | "split" =>
     match unesc rest with
@@ -172,21 +163,20 @@ def step (line : String) : String :=
         else "BAD"
       | _, _, _, _ => "BAD"
     | _ => "BAD"
-  | "timecoord" | "timecoordcur" | "savetime" | "savetimecur" =>
+  | "timecoord" | "savetime" =>
     let (conv, r1) := cut rest
     let (dims, vs) := cut r1
     let k : Option ConvKind := match String.ofList conv with
       | "generic" => some .generic | "shoc_standard" => some .shocStandard
       | "shoc_simple" => some .shocSimple | _ => none
-    let dims : List String := if dims = ['-'] then [] else (String.ofList dims).splitOn ","
+    -- the dimension names travel with the line for the record; a bare dimension is not a variable
+    let _dims : List String := if dims = ['-'] then [] else (String.ofList dims).splitOn ","
     match k, parseTVars? vs with
     | some k, some vs =>
       match String.ofList op with
       | "timecoord" => (timeCoordinate k vs).getD "-"
-      | "timecoordcur" => (timeCoordinateCurrent k dims vs).getD "-"
-      | o =>
-        let found := if o == "savetime" then timeCoordinate k vs else timeCoordinateCurrent k dims vs
-        match saveTimeVariable found vs with
+      | _ =>
+        match saveTimeVariable (timeCoordinate k vs) vs with
         | none => "-"
         | some (some n) => n
         | some none => "ERR"
@@ -196,9 +186,6 @@ def step (line : String) : String :=
     match String.ofList what with
     | "offset" => match parseInt? (String.ofList r1) with
       | some m => bit (parseOffset (formatOffset m) == some m)
-      | none => "BAD"
-    | "offsetcur" => match parseInt? (String.ofList r1) with
-      | some m => bit (parseOffset (formatOffsetCurrent m) == some m)
       | none => "BAD"
     | "fmt" =>
       let (cal, u) := cut r1
